@@ -261,7 +261,25 @@ def f_inplace(rng, seed):
     """elementwise operators whose inputs stay live (in-place fusing must not happen)"""
     n = Net(seed)
     H, W, C = rng.choice([4, 8, 16]), rng.choice([4, 8]), rng.choice([8, 16])
-    style = rng.choice(["abs_then_add", "protected_second_operand", "unary_chain_fanout", "mul_self_later"])
+    style = rng.choice(["abs_then_add", "protected_second_operand", "unary_chain_fanout", "mul_self_later",
+                        "cpu_then_later_cpu", "cpu_then_later_npu", "memcpy_alias_then_inplace", "input_memcpy_then_inplace"])
+    if style in ("cpu_then_later_cpu", "cpu_then_later_npu", "memcpy_alias_then_inplace", "input_memcpy_then_inplace"):
+        # an operand that is produced on the CPU (or is a network input seen through a memory-only reshape) feeds an NPU
+        # elementwise operator and is read again later
+        x = n.fm("in", [1, H, W, C], is_input=True)
+        a = x if style == "input_memcpy_then_inplace" else n.cpu_op(x, "ROUND")
+        if style.endswith("memcpy_then_inplace") or style.startswith("memcpy"):
+            b = n.unary("ABS", n.reshape(a, [1, H * W, 1, C]))
+            outs = [b, n.cpu_op(a, "ROUND")]
+        elif style == "cpu_then_later_npu":
+            b = n.unary("ABS", a)
+            outs = [n.eltwise("ADD", n.cpu_op(b, "ROUND"), a)]
+        else:
+            b = n.unary("ABS", a)
+            cpu = n.fm("cpu_out", [1, H, W, C], n.t[a]["type"], 0.05, 0)
+            n.op("FLOOR_DIV", [a, b], [cpu])
+            outs = [cpu]
+        return "inplace:" + style, n.desc(outs)
     if style == "abs_then_add":
         x = n.fm("in", [1, H, W, C], is_input=True)
         t = n.conv(x, C, 3)
